@@ -28,9 +28,11 @@ RULE = ("Hypothesis-drawn pairs of modules (1..3 classes/functions each, in any 
         "valid dotted paths of the *current* files (Class.attr, func.param, Class.method.param, keyword-only), wrap "
         "template on/off, --input-eval on/off, black present/absent; one seeded I/O fault (error / torn close / crash "
         "at a drawn seam call) in ~30% of commands and, on flagged plans, every seam call of the last command faulted "
-        "once per kind. D1/D5 are judged after every command and every injected fault, D2-D4 after every command that "
-        "returned without a fault. Non-trivial = at least one command returned normally and a reach probe fired; "
-        "distinct = distinct outcome digest (argv, outcome, seam log, world snapshot).")
+        "once per kind; on every 80th (quick) / 12th (thorough) plan additionally every valid (input path, output "
+        "path) of the two initial files as a one-pair command of its own. D1/D5 are judged after every command and "
+        "every injected fault, D2-D4 after every command that returned without a fault. Non-trivial = at least one "
+        "command returned normally and a reach probe fired; distinct = distinct outcome digest (argv, outcome, seam "
+        "log, world snapshot).")
 ASSUMPTIONS = [
     "syntactic identity is judged on ASTs (ast.dump without positions): comments, quoting and layout are not part of "
     "the statement, the command re-renders the whole file",
@@ -46,10 +48,13 @@ ASSUMPTIONS = [
     "when the command fails (raises, simulated crash) the output file may be anything the fault left; the history "
     "continues after a user recovery (output restored from the last good copy); D1 and D5 still hold",
     "faults are one-shot; process-crash semantics (closed files persist, open buffers are lost); no power loss",
-    "regions of open known findings (F-C13-2/3/4/6) are drawn in about one command of six only; each is still "
-    "replayed on every run",
-    "async definitions, nested definitions, positional-only parameters and attributes defined after methods are "
-    "not generated",
+    "regions of open known findings (F-C13-2/3/4/6, computed as structural predicates of the two files) are drawn in "
+    "about one command of six only; each is still replayed on every run; a finding whose status becomes 'fixed' "
+    "re-opens its region automatically",
+    "a keyword-only *input* parameter is refused by cdd (AssertionError, nothing written) - not a violation; such "
+    "inputs are drawn in a third of the pairs",
+    "async definitions, nested definitions, positional-only parameters, attributes defined after methods, module "
+    "docstrings in the input file and string values that spell the name of a parameter/attribute are not generated",
 ]
 REAL = ["cdd (all modules, working tree)", "cdd.__main__.main argv parsing", "CPython ast / ast.unparse", "black",
         "the tmpfs file system for everything that persists"]
@@ -79,6 +84,7 @@ MODULE_DOC = '"""Settings used by the job.\n\n   Kept next to the code.\n"""'
 # open known findings whose region the generator draws only in `rough` commands (DESIGN.md §5.2)
 AVOIDABLE = ("F-C13-2", "F-C13-3", "F-C13-4", "F-C13-6")
 MAX_REPORT = 8
+TASK_TIMEOUT = {"quick": 900, "thorough": 5400}
 
 
 def probes():
@@ -1070,14 +1076,14 @@ def _avoid(known):
 
 
 def plan(tier, seed, scale=1.0):
-    per = int({"quick": 700, "thorough": 6000}[tier] * scale)
+    per = int({"quick": 700, "thorough": 8000}[tier] * scale)
     return [{"seed": seed * 1000 + w, "n": per, "tier": tier} for w in range(16)]
 
 
 def work(task):
     known = load_known(ID)
     quick = task["tier"] == "quick"
-    strat = plans(avoid=_avoid(known), enum_every=4 if quick else 3, all_pairs_every=80 if quick else 16)
+    strat = plans(avoid=_avoid(known), enum_every=4 if quick else 3, all_pairs_every=80 if quick else 12)
     return explore(strat, simulate, task["seed"], task["n"], known, batch=50 if quick else 100,
                    max_shrink_runs=300, max_shrink_s=45.0)
 
